@@ -474,6 +474,7 @@ package stack
 //@   ensures [sigMergeStackShape C12] fresh(result.Stack.Calls) && len(result.Stack.Calls) == len(s.Stack.Calls) && result.Stack.Elided == s.Stack.Elided
 //@   ensures [sigMergeKeepsFrames C12] forall i :: 0 <= i && i < len(s.Stack.Calls) ==> CallKeyKept(&result.Stack.Calls[i], &s.Stack.Calls[i])
 //@   ensures [sigMergePrecise C12] MergedCalls(result.Stack.Calls, s.Stack.Calls, r.Stack.Calls) && rootOf(result.Stack.Calls) > rootOf(result)
+//@   ensures [sigMergedSpec C12 C05] MergedSig(result, s, r)
 
 // ---- bucket.go: Aggregate (C04, C13, C14) ------------------------------------------
 //@ pred SnapOK(s *Snapshot) = s != nil && forall i :: 0 <= i && i < len(s.Goroutines) ==> s.Goroutines[i] != nil && LocsOK(s.Goroutines[i].Stack.Calls)
@@ -488,8 +489,26 @@ package stack
 //@ pred FirstOK(s *Snapshot, k int, counts auto, owner auto, fsrc auto) = (forall j :: 0 <= j && j <= k && s.Goroutines[j].First ==> owner[j].first) && (forall c *count :: counts[c] && c.first ==> 0 <= fsrc[c] && fsrc[c] <= k && owner[fsrc[c]] == c && s.Goroutines[fsrc[c]].First)
 //@ pred BucketsOK(b auto, bs auto, counts auto, done auto, bidx auto, cof auto) = (forall c *count :: counts[c] && done[c] ==> 0 <= bidx[c] && bidx[c] < len(bs) && cof[bidx[c]] == c && sameslice(bs[bidx[c]].IDs, c.ids) && (bs[bidx[c]].First <==> c.first) && (forall p, q :: 0 <= p && p < q && q < len(c.ids) ==> c.ids[p] <= c.ids[q])) && (forall i :: 0 <= i && i < len(bs) ==> bs[i] != nil && fresh(bs[i]) && live(bs[i]) && LocsOK(bs[i].Stack.Calls) && counts[cof[i]] && done[cof[i]] && bidx[cof[i]] == i)
 
+//@ pred SigSame(k *Signature, s *Signature) = k.State == s.State && sameslice(k.CreatedBy.Calls, s.CreatedBy.Calls) && k.CreatedBy.Elided == s.CreatedBy.Elided && sameslice(k.Stack.Calls, s.Stack.Calls) && k.Stack.Elided == s.Stack.Elided && k.Locked == s.Locked && k.SleepMin == s.SleepMin && k.SleepMax == s.SleepMax
+//@ lemma [C05 C12] sigSameTransport(k *Signature, s *Signature, x *Signature, l Similarity)
+//@   requires SigSame(k, s)
+//@   ensures (SimSig(x, k, l) <==> SimSig(x, s, l)) && (SimSig(k, x, l) <==> SimSig(s, x, l)) && (GenSig(k, x) <==> GenSig(s, x)) && (WFSig(k) <==> WFSig(s))
+//@ lemma [C05 C12] sigCopySimilar(k *Signature, s *Signature, l Similarity)
+//@   requires LevelOK(l) && SigSame(k, s)
+//@   ensures SimSig(k, s, l)
+//@   uses sigSimReflexive, sigSameTransport
+//@ lemma [C12] sigCopyGeneralises(k *Signature, s *Signature)
+//@   requires SigSame(k, s)
+//@   ensures GenSig(k, s)
+//@   uses sigGenReflexive, sigSameTransport
+//@ pred KeysWF(counts auto, keyOf auto) = forall c *count :: counts[c] ==> WFSig(keyOf[c])
+//@ pred MembersSimilar(s *Snapshot, k int, lvl Similarity, keyOf auto, owner auto) = forall j :: 0 <= j && j <= k ==> SimSig(keyOf[owner[j]], &s.Goroutines[j].Signature, lvl)
+//@ pred KeyGeneralises(s *Snapshot, k int, keyOf auto, owner auto) = forall j :: 0 <= j && j <= k ==> GenSig(keyOf[owner[j]], &s.Goroutines[j].Signature)
+//@ pred KeysDissimilar(lvl Similarity, counts auto, keyOf auto) = forall c1 *count, c2 *count :: counts[c1] && counts[c2] && c1 != c2 ==> !SimSig(keyOf[c1], keyOf[c2], lvl)
+
 //@ func (*Snapshot).Aggregate
 //@   requires SnapOK(s)
+//@   requires [membersWellFormed C05 C12] LevelOK(similar) && forall i :: 0 <= i && i < len(s.Goroutines) ==> WFSig(&s.Goroutines[i].Signature)
 //@   modifies nothing
 //@   gvar counts [*count]bool = empty
 //@   gvar keyOf [*count]*Signature
@@ -503,6 +522,14 @@ package stack
 //@   update after-store count.ids#1: owner[rangeindex] := c; pos[rangeindex] := len(c.ids) - 1; src[c][len(c.ids) - 1] := rangeindex
 //@   update after-store count.first#1: fsrc[c] := routine.First ? rangeindex : fsrc[c]
 //@   update after-mapupdate#1: keyOf[c] := newKey
+//@   assert after-call merge#1: [keyIsKeyOfC C05 needs=countsOK] counts[c] && keyOf[c] == key && live(key)
+//@   assert after-call merge#1: [othersDissimilarToKey C05 needs=countsOK+keysDissimilar+keyIsKeyOfC] forall c2 *count :: counts[c2] && c2 != c ==> !SimSig(key, keyOf[c2], similar) && !SimSig(keyOf[c2], key, similar) && live(keyOf[c2])
+//@   assert after-call merge#1: [stillDissimilar C05 needs=keysDissimilar] KeysDissimilar(similar, counts, keyOf)
+//@   assert after-mapupdate#1: [keyWF C05 needs=keysWF+countsOK] WFSig(key)
+//@   assert after-mapupdate#1: [memberWF C05 needs=membersWellFormed] WFSig(&routine.Signature)
+//@   assert after-mapupdate#1: [keySimilarToMember C05 needs=sigSimilarIsSpec] SimSig(key, &routine.Signature, similar)
+//@   assert after-mapupdate#1: [newKeyIsMerge C05 needs=sigMergedSpec] MergedSig(newKey, key, &routine.Signature)
+//@   assert after-mapupdate#1: [rekeyKeepsClass C05 uses=sigMergedKeepsClass needs=keyWF+memberWF+keySimilarToMember+newKeyIsMerge] forall x *Signature :: live(x) ==> ((SimSig(newKey, x, similar) <==> SimSig(key, x, similar)) && (SimSig(x, newKey, similar) <==> SimSig(x, key, similar)))
 //@   update after-mapupdate#2: counts[b[key]] := true; keyOf[b[key]] := key; owner[rangeindex] := b[key]; pos[rangeindex] := 0; src[b[key]][0] := rangeindex; fsrc[b[key]] := rangeindex
 //@   update after-call sort.Ints#1: pos := lambda j :: (owner[j] == c ? perm[pos[j]] : pos[j]); src[c] := lambda p :: src[c][inv[p]]
 //@   update after-call append#2: done[c] := true; bidx[c] := len(bs); cof[len(bs)] := c
@@ -513,15 +540,31 @@ package stack
 //@   ensures [idsAscending C04] forall i, p, q :: 0 <= i && i < len(result.Buckets) && 0 <= p && p < q && q < len(result.Buckets[i].IDs) ==> result.Buckets[i].IDs[p] <= result.Buckets[i].IDs[q]
 //@   at-return [everyGoroutineInOneSlot C04] forall j :: 0 <= j && j < len(s.Goroutines) ==> 0 <= bidx[owner[j]] && bidx[owner[j]] < len(result.Buckets) && 0 <= pos[j] && pos[j] < len(result.Buckets[bidx[owner[j]]].IDs) && result.Buckets[bidx[owner[j]]].IDs[pos[j]] == s.Goroutines[j].ID && cof[bidx[owner[j]]] == owner[j] && src[owner[j]][pos[j]] == j
 //@   at-return [everySlotIsOneGoroutine C04] forall i, p :: 0 <= i && i < len(result.Buckets) && 0 <= p && p < len(result.Buckets[i].IDs) ==> 0 <= src[cof[i]][p] && src[cof[i]][p] < len(s.Goroutines) && owner[src[cof[i]][p]] == cof[i] && pos[src[cof[i]][p]] == p && bidx[cof[i]] == i
+//@   at-return [sameBucketIffSimilar C05 uses=sigSimSymmetric+sigSimTransitive] forall i, j :: 0 <= i && i < len(s.Goroutines) && 0 <= j && j < len(s.Goroutines) ==> (owner[i] == owner[j] <==> SimSig(&s.Goroutines[i].Signature, &s.Goroutines[j].Signature, similar))
+//@   at-return [bucketSignatureGeneralisesMembers C12] forall j :: 0 <= j && j < len(s.Goroutines) ==> GenSig(&result.Buckets[bidx[owner[j]]].Signature, &s.Goroutines[j].Signature)
 //@   at-return [firstFlag C04] (forall j :: 0 <= j && j < len(s.Goroutines) && s.Goroutines[j].First ==> result.Buckets[bidx[owner[j]]].First) && (forall i :: 0 <= i && i < len(result.Buckets) && result.Buckets[i].First ==> 0 <= fsrc[cof[i]] && fsrc[cof[i]] < len(s.Goroutines) && s.Goroutines[fsrc[cof[i]]].First && bidx[owner[fsrc[cof[i]]]] == i)
 //@   loop 0: invariant -1 <= rangeindex && rangeindex < len(s.Goroutines) && SnapOK(s)
-//@   loop 0: invariant [countsOK C04] CountsOK(b, counts, keyOf)
-//@   loop 0: invariant [slotsBijective C04] SlotsOK(s, rangeindex, counts, owner, pos, src)
-//@   loop 0: invariant [firstOK C04] FirstOK(s, rangeindex, counts, owner, fsrc)
+//@   loop 0: invariant [countsOK C04 needs=countsOK+sigMergeFresh+sigMergeKeepsFrames+sigMergeStackShape] CountsOK(b, counts, keyOf)
+//@   loop 0: invariant [slotsBijective C04 needs=slotsBijective+countsOK] SlotsOK(s, rangeindex, counts, owner, pos, src)
+//@   loop 0: invariant [firstOK C04 needs=firstOK+slotsBijective+countsOK] FirstOK(s, rangeindex, counts, owner, fsrc)
+//@   loop 0: invariant [keysWF C05 C12 uses=sigMergedKeepsWF+sigSameTransport needs=keysWF+countsOK+sigMergedSpec+sigMergeFresh+membersWellFormed] KeysWF(counts, keyOf)
+//@   loop 0: invariant [membersSimilar C05 uses=sigCopySimilar needs=membersSimilar+countsOK+slotsBijective+sigSimilarIsSpec+keySimilarToMember+rekeyKeepsClass] MembersSimilar(s, rangeindex, similar, keyOf, owner)
+//@   loop 0: invariant [keyGeneralises C12 uses=sigMergedGeneralises+sigGenMonotone+sigCopyGeneralises+sigRefinement+sigEqualGeneralises needs=keyGeneralises+membersSimilar+keysWF+countsOK+slotsBijective+sigSimilarIsSpec+sigEqualIsSpec+sigMergedSpec+sigMergeFresh+membersWellFormed] KeyGeneralises(s, rangeindex, keyOf, owner)
+//@   loop 0: invariant [keysDissimilar C05 uses=sigSimSymmetric+sigSameTransport needs=keysDissimilar+countsOK+visitedDissimilar+rekeyKeepsClass+keyIsKeyOfC+othersDissimilarToKey+stillDissimilar] KeysDissimilar(similar, counts, keyOf)
 //@   loop 0: decreases len(s.Goroutines) - rangeindex
-//@   loop 1: invariant SnapOK(s) && CountsOK(b, counts, keyOf) && SlotsOK(s, rangeindex - 1, counts, owner, pos, src) && FirstOK(s, rangeindex - 1, counts, owner, fsrc) && !found && routine == s.Goroutines[rangeindex] && 0 <= rangeindex && rangeindex < len(s.Goroutines)
+//@   loop 1: invariant [keysWF C05 C12] KeysWF(counts, keyOf)
+//@   loop 1: invariant [membersSimilar C05] MembersSimilar(s, rangeindex - 1, similar, keyOf, owner)
+//@   loop 1: invariant [keyGeneralises C12] KeyGeneralises(s, rangeindex - 1, keyOf, owner)
+//@   loop 1: invariant [keysDissimilar C05] KeysDissimilar(similar, counts, keyOf)
+//@   loop 1: invariant [visitedDissimilar C05] forall key *Signature :: dom(b, key) && visited[key] ==> !SimSig(key, &routine.Signature, similar)
+//@   loop 1: invariant [countsOK C04] CountsOK(b, counts, keyOf)
+//@   loop 1: invariant [slotsBijective C04] SlotsOK(s, rangeindex - 1, counts, owner, pos, src)
+//@   loop 1: invariant [firstOK C04] FirstOK(s, rangeindex - 1, counts, owner, fsrc)
+//@   loop 1: invariant SnapOK(s) && !found && routine == s.Goroutines[rangeindex] && 0 <= rangeindex && rangeindex < len(s.Goroutines)
 //@   loop 2: invariant SnapOK(s) && CountsOK(b, counts, keyOf) && fresh(bs) && SlotsOK(s, len(s.Goroutines) - 1, counts, owner, pos, src) && FirstOK(s, len(s.Goroutines) - 1, counts, owner, fsrc)
 //@   loop 2: invariant [bucketsOK C04] BucketsOK(b, bs, counts, done, bidx, cof)
+//@   loop 2: invariant [membersOKfinal C05 C12] KeysWF(counts, keyOf) && MembersSimilar(s, len(s.Goroutines) - 1, similar, keyOf, owner) && KeyGeneralises(s, len(s.Goroutines) - 1, keyOf, owner) && KeysDissimilar(similar, counts, keyOf)
+//@   loop 2: invariant [bucketSigIsKey C12] forall c *count :: counts[c] && done[c] ==> SigSame(&bs[bidx[c]].Signature, keyOf[c])
 //@   loop 2: invariant [visitedIsDone C04] forall key *Signature :: dom(b, key) ==> (visited[key] <==> done[b[key]])
 
 // ---- lemma layer for C05 / C12 (spec level, arbitrary well-founded heap) ---------
@@ -567,6 +610,10 @@ package stack
 //@   requires GenVals(k, m) && MergedVals(k2, k, r)
 //@   ensures GenVals(k2, m)
 //@   induction height(k)
+//@ lemma [C12] exactIsGen(a []Arg, r []Arg)
+//@   requires SimVals(a, r, ExactFlags)
+//@   ensures GenVals(a, r)
+//@   induction height(a)
 //@ lemma [C12] genReflexive(a []Arg)
 //@   ensures GenVals(a, a)
 //@   induction height(a)
@@ -611,6 +658,10 @@ package stack
 //@   requires GenSig(k, m) && MergedSig(k2, k, r)
 //@   ensures GenSig(k2, m)
 //@   uses genMonotone
+//@ lemma [C12] sigEqualGeneralises(s *Signature, r *Signature)
+//@   requires EqSig(s, r)
+//@   ensures GenSig(s, r)
+//@   uses exactIsGen
 //@ lemma [C12] sigGenReflexive(s *Signature)
 //@   ensures GenSig(s, s)
 //@   uses genReflexive
